@@ -22,10 +22,18 @@ from .c11 import C11, PEER
 
 P = "C05"
 
+SWEEP_TAGNUMS = list(range(0, 13)) + [30]
+# every filter kind once, so that a sweep touches every CHOICE of the filter grammar
+RICH_FILTER = {"t": "And", "filters": [
+    {"t": "Or", "filters": [{"t": "Equality", "attribute": "cn", "value": "61"}, {"t": "ApproxMatch", "attribute": "cn", "value": "62"}]},
+    {"t": "Not", "filter": {"t": "Present", "attribute": "objectClass"}},
+    {"t": "Substrings", "attribute": "sn", "initial": "69", "any": ["6161", "62"], "final": "66"},
+    {"t": "GreaterOrEqual", "attribute": "uidNumber", "value": "31"}, {"t": "LessOrEqual", "attribute": "uidNumber", "value": "39"},
+    {"t": "ExtensibleMatch", "rule": "2.5.13.5", "attribute": "cn", "value": "78", "dn_attributes": True}]}
 SWEEP_HOWS = {
     "len_edit": ["+1", "-1", "0", "huge", "long1", "long4", "leading0", "indef", "ff", "lol127"],
     "inner_len_edit": ["+1", "+5", "x2", "long4_big"],
-    "tag_edit": ["class", "number", "constructed", "hightag", "hightag_trunc", "zero"],
+    "tag_edit": ["class", "number", "neighbour", "constructed", "hightag", "hightag_trunc", "zero"],
 }
 
 
@@ -140,7 +148,8 @@ class C05(PropBase):
         kinds = faults.NODE_KINDS_RAW + faults.INTERIOR + faults.PDU_KINDS
         init.update(personality="uniform", term_p=0.0, quiesce_every=10 ** 9, odd_ints=False, huge=0.0,
                     fault_after=rng.choice([0, 1, 3, 6, 10, 16, 25, 40]), nfaults=rng.choice([1, 1, 1, 2, 4]),
-                    focus=kinds[self.idx % len(kinds)], sweep=(self.tier == "thorough" and self.idx % 128 == 0),
+                    focus=kinds[self.idx % len(kinds)],
+                    sweep=(self.idx % 128 == 0) if self.tier == "thorough" else (self.idx % 2000 == 0),
                     sweep_seed=rng.getrandbits(32))
         return init
 
@@ -576,7 +585,11 @@ class C05(PropBase):
             _register(fresh, w.init["customs"])
             pdus = []
             if role == "s":
-                for mid, (m, a) in enumerate([("search_request", g.a_search_request()), ("extended_request", g.a_extended_request()),
+                rich = g.a_search_request()
+                rich["filter"] = RICH_FILTER
+                rich["controls"] = [{"t": "Paged", "critical": True, "size": 100, "cookie": "c0ffee"}, {"t": "ShowDeleted", "critical": False}]
+                rich["attributes"] = ["cn", "*"]
+                for mid, (m, a) in enumerate([("search_request", rich), ("extended_request", g.a_extended_request()),
                                               g.a_bind_any()], 1):
                     pdus.append(rfc4511.enc_msg(expected_message(m, a, mid)))
             else:
@@ -610,7 +623,14 @@ class C05(PropBase):
                             hows = ["empty", "short", "absent", "not_sequence", "inner_overrun"]
                         if hows:
                             for h in hows:
-                                variants.append(dict(base, how=h, val=rr.randrange(256)))
+                                if h == "number":
+                                    for tn in SWEEP_TAGNUMS:
+                                        variants.append(dict(base, how=h, val=tn))
+                                elif h == "neighbour":
+                                    for dl in (-2, -1, 1, 2, 3):
+                                        variants.append(dict(base, how=h, delta=dl))
+                                else:
+                                    variants.append(dict(base, how=h, val=rr.randrange(256)))
                         elif kind == "content_edit":
                             for pos, val in ((0, 0x00), (0, 0xFF), (max(0, node.ln - 1), 0x80)):
                                 variants.append(dict(base, pos=pos, val=val, mode="set"))
@@ -629,7 +649,10 @@ class C05(PropBase):
                         st.fault(f["kind"])
                         st.hit("sweep_cases")
                         cutpoint = min(len(new) - 1, max(1, node.off + 1))
-                        for chunks in ([new], [new[i:i + 1] for i in range(len(new))], [new[:cutpoint], new[cutpoint:]]):
+                        chunkings = [[new], [new[:cutpoint], new[cutpoint:]]]
+                        if self.tier == "thorough":
+                            chunkings.append([new[i:i + 1] for i in range(len(new))])
+                        for chunks in chunkings:
                             victim = copy.deepcopy(victim0)
                             for ch in chunks:
                                 ev = outcome(victim, ch)
